@@ -1,6 +1,6 @@
 #!/usr/bin/env python3
-"""Prints the detection table of /verif/seeded (markdown)."""
-import json, glob, os
+"""Regenerates the detection table of /verif/seeded inside DESIGN.md (between the SEEDED-TABLE markers)."""
+import json, glob, re
 rows=[]
 for p in sorted(glob.glob('/verif/seeded/*/meta.json')):
     m=json.load(open(p))
@@ -9,6 +9,15 @@ for p in sorted(glob.glob('/verif/seeded/*/meta.json')):
     missed=sorted(k for k,v in det.items() if not v.get('detected'))
     sigs='; '.join(sorted(set(v['signature'] for v in det.values() if v.get('detected') and v.get('signature'))))
     rows.append((m['id'],m.get('property'),m.get('what',''),m.get('needs_to_manifest',''),', '.join(caught) or '-',', '.join(missed) or '-',sigs))
-print('| id | property | change | needs | caught by (check/tier) | run but silent | signature(s) |')
-print('|---|---|---|---|---|---|---|')
-for r in rows: print('| '+' | '.join(str(x).replace('|','/') for x in r)+' |')
+out=['| id | targets | change | needs in order to manifest | caught by (check/tier) | run but silent | signature(s) reported |','|---|---|---|---|---|---|---|']
+for r in rows: out.append('| '+' | '.join(str(x).replace('|','/') for x in r)+' |')
+n=len(rows); c=sum(1 for r in rows if r[4]!='-'); own=sum(1 for r in rows if (r[1]+'/') in r[4])
+out.append('')
+out.append('%d seeded changes kept; %d caught by at least one check, %d caught by the check of the property they target.'%(n,c,own))
+txt='\n'.join(out)
+d=open('/verif/DESIGN.md').read()
+a='<!-- SEEDED-TABLE-BEGIN -->'; b='<!-- SEEDED-TABLE-END -->'
+if a in d:
+    d=d[:d.index(a)+len(a)]+'\n'+txt+'\n'+d[d.index(b):]
+    open('/verif/DESIGN.md','w').write(d)
+print(txt[-200:])
